@@ -1,12 +1,62 @@
 use crate::internals::stream_controller::*;
 use crate::prelude::*;
+use std::{
+  collections::VecDeque,
+  sync::{Arc, RwLock},
+};
 
 #[derive(Clone)]
 pub struct SequenceEqual<'a, Item>
 where
   Item: Clone + Send + Sync,
 {
-  zip_op: operators::Zip<'a, Item>,
+  observables: Vec<Observable<'a, Item>>,
+}
+
+// what has arrived so far and not been compared yet, per input
+struct Pending<Item> {
+  queues: Vec<VecDeque<Item>>,
+  completed: Vec<bool>,
+  decided: bool,
+}
+
+impl<Item> Pending<Item>
+where
+  Item: PartialEq,
+{
+  // Some(result) as soon as the result is known; at most once
+  fn decide(&mut self) -> Option<bool> {
+    if self.decided {
+      return None;
+    }
+    let mut result = None;
+    while result.is_none() && self.queues.iter().all(|q| !q.is_empty()) {
+      let heads = self
+        .queues
+        .iter_mut()
+        .map(|q| q.pop_front().unwrap())
+        .collect::<Vec<Item>>();
+      if !heads.iter().all(|x| *x == heads[0]) {
+        result = Some(false);
+      }
+    }
+    if result.is_none() {
+      let some_pending = self.queues.iter().any(|q| !q.is_empty());
+      let some_exhausted = self
+        .queues
+        .iter()
+        .zip(self.completed.iter())
+        .any(|(q, c)| *c && q.is_empty());
+      if some_pending && some_exhausted {
+        // one input is longer than another
+        result = Some(false);
+      } else if !some_pending && self.completed.iter().all(|c| *c) {
+        result = Some(true);
+      }
+    }
+    self.decided = result.is_some();
+    result
+  }
 }
 
 impl<'a, Item> SequenceEqual<'a, Item>
@@ -14,37 +64,66 @@ where
   Item: Clone + Send + Sync + PartialEq,
 {
   pub fn new(observables: &[Observable<'a, Item>]) -> SequenceEqual<'a, Item> {
-    SequenceEqual { zip_op: operators::Zip::new(observables) }
+    SequenceEqual { observables: observables.to_vec() }
   }
   pub fn execute(&self, source: Observable<'a, Item>) -> Observable<'a, bool> {
-    let zip_op = self.zip_op.clone();
+    let observables = self.observables.clone();
 
     Observable::create(move |s| {
-      let source = source.clone();
-
       let sctl = StreamController::new(s);
+      let n = observables.len() + 1;
 
-      let sctl_next = sctl.clone();
-      let sctl_error = sctl.clone();
-      let sctl_complete = sctl.clone();
+      let pending = Arc::new(RwLock::new(Pending {
+        queues: (0..n).map(|_| VecDeque::<Item>::new()).collect(),
+        completed: vec![false; n],
+        decided: false,
+      }));
 
-      zip_op.execute(source).inner_subscribe(sctl.new_observer(
-        move |serial, x: Vec<Item>| {
-          let check = x.get(0).unwrap();
-          if !x.iter().all(|i| i == check) {
-            sctl_next.upstream_abort_observe(&serial);
-            sctl_next.sink_next(false);
-            sctl_next.sink_complete(&serial);
-          }
-        },
-        move |_, e| {
-          sctl_error.sink_error(e);
-        },
-        move |serial| {
-          sctl_complete.sink_next(true);
-          sctl_complete.sink_complete(&serial);
-        },
-      ));
+      // prepare subscribers
+      let mut sbs = {
+        let sctl = sctl.clone();
+        VecDeque::from_iter((0..n).map(move |id| {
+          let pending_next = Arc::clone(&pending);
+          let pending_complete = Arc::clone(&pending);
+          let sctl_next = sctl.clone();
+          let sctl_error = sctl.clone();
+          let sctl_complete = sctl.clone();
+          sctl.new_observer(
+            move |_, x: Item| {
+              let result = {
+                let mut pending = pending_next.write().unwrap();
+                pending.queues[id].push_back(x);
+                pending.decide()
+              };
+              if let Some(result) = result {
+                sctl_next.sink_next(result);
+                sctl_next.sink_complete_force();
+              }
+            },
+            move |_, e| {
+              sctl_error.sink_error(e);
+            },
+            move |serial| {
+              let result = {
+                let mut pending = pending_complete.write().unwrap();
+                pending.completed[id] = true;
+                pending.decide()
+              };
+              if let Some(result) = result {
+                sctl_complete.sink_next(result);
+                sctl_complete.sink_complete_force();
+              } else {
+                sctl_complete.upstream_abort_observe(&serial);
+              }
+            },
+          )
+        }))
+      };
+
+      source.inner_subscribe(sbs.pop_front().unwrap());
+      observables.iter().for_each(|o| {
+        o.inner_subscribe(sbs.pop_front().unwrap());
+      });
     })
   }
 }
